@@ -23,6 +23,10 @@ pub fn base_programs(tier: Tier) -> Vec<(&'static str, String)> {
     ("bool-matrix", "x := [true false]".into()), ("rational", "x := 1/3".into()), ("complex", "x := 1+2i".into()), ("empty-string", "x := \"\"".into()), ("transpose", "x := [1 2; 3 4]'".into()), ("matmul", "a := [1 2; 3 4]\nb := a ** a".into()),
     ("chain", "a := 1\nb := a\nc := b + a".into()), ("slice2d", "x := [1 2 3; 4 5 6; 7 8 9]\ny := x[[1 3],2]".into()),
   ];
+  // programs with many variables: the symbol section grows by one entry per variable
+  for (name, n) in [("vars-11", 11usize), ("vars-12", 12), ("vars-13", 13), ("vars-25", 25)] {
+    v.push((name, (0..n).map(|i| format!("v{} := {}", i, i + 1)).chain(std::iter::once(format!("r := v0 + v{}", n - 1))).collect::<Vec<_>>().join("\n")));
+  }
   if tier == Tier::Thorough {
     for r in 1..=6usize { for c in 1..=3usize {
       let vals: Vec<String> = (0..r * c).map(|i| format!("{}", i + 1)).collect();
